@@ -248,10 +248,10 @@ void Binson::deserialize(const std::vector<uint8_t> &data)
     BINSON_PARSER_DEF(p);
     clear();
 
-    binson_parser_init(&p, const_cast<uint8_t*>(data.data()), data.size());
-    binson_parser_go_into_object(&p);
+    ifRuntimeError(binson_parser_init(&p, const_cast<uint8_t*>(data.data()), data.size()), "Parser init error");
+    ifRuntimeError(binson_parser_go_into_object(&p), "Parse error");
     deseralizeItems(&p);
-    binson_parser_leave_object(&p);
+    ifRuntimeError(binson_parser_leave_object(&p), "Parse error");
 }
 
 void Binson::deserialize(const uint8_t *data, size_t size)
